@@ -1417,6 +1417,16 @@ func (c *connection) Join(conn net.Conn, id string, dial gen.NetworkDial, tail [
 			c.log.Trace("joined new connection %s to the pool", conn.RemoteAddr().String())
 		}
 
+		if redialed {
+			// the flusher wraps the socket it was created with: the re-dialed link
+			// needs its own, otherwise everything sent over this pool item keeps
+			// going to the closed socket (send does not look at the result of the
+			// write)
+			c.pool_mutex.Lock()
+			pi.fl = lib.NewFlusher(pi.connection)
+			c.pool_mutex.Unlock()
+		}
+
 		received := c.serve(pi.connection, tail)
 
 		// A re-dialed link that the peer closed without a single frame is a refused join: the
@@ -2928,6 +2938,8 @@ func (c *connection) send(buf *lib.Buffer, order uint8, compression gen.Compress
 		n := int(order) % l
 		pi = c.pool[n]
 	}
+	// (a re-dial replaces the flusher of a pool item under the pool lock)
+	fl := pi.fl
 	c.pool_mutex.RUnlock()
 
 	atomic.AddUint64(&c.messagesOut, 1)
@@ -2938,7 +2950,7 @@ func (c *connection) send(buf *lib.Buffer, order uint8, compression gen.Compress
 	// c.transitOut++
 	// if buf.Len() < protoFragmentSize {
 
-	pi.fl.Write(buf.B)
+	fl.Write(buf.B)
 	lib.ReleaseBuffer(buf)
 	return nil
 
